@@ -13,6 +13,7 @@ LEVEL_TEXT = (
     "listener handles are stored and all stored handles are called on unload; the finaliser paths reach the stop "
     "routines and no manager/decorator holds a strong reference to the function variable; a context is stopped before "
     "it is dropped or replaced and when its load fails"
+    "; legacy @service registrations made by a decorator set that then fails are rolled back; State.notify_del releases every entity for every name order; GlobalContext.stop always switches auto-start off; the manager of a function whose variable died is stopped or, if not started yet, never started; a refused @service name never releases another context's registration"
 )
 LEVEL_NOTE = "when the last reference to a function dies is decided by the host GC and is out of scope; acquire/release kinds are recognised by the repo's own API names (table in the checker)"
 TECHNIQUE = "acquire/release kind tables per owner class (sibling agreement), loop early-exit rule, handle def-use, closure free-variable check, ordered must-pass events in load_file/delete"
